@@ -189,6 +189,10 @@ fn classify_key(k: &str) -> String {
             "tag:empty"
         } else if t == "WAITING" {
             "tag:synth"
+        } else if ["ACTIVE", "PENDING", "COMPLETED", "DELETED", "BLOCKED", "UNBLOCKED", "BLOCKING"]
+            .contains(&t)
+        {
+            "skip" // the model has one stored synthetic name (WAITING)
         } else if user_tag_ok(t) {
             "tag:valid"
         } else if t.chars().skip(1).any(|c| c.is_whitespace() || c == ':') {
@@ -592,6 +596,11 @@ fn sweep_task(task: &Task, tab: &Tab, sw: &mut Sweep) {
         }
     };
     sw.scalar("get_uuid", "-", guard(|| task_tok(task.get_uuid())));
+    sw.scalar(
+        "data.get_uuid",
+        "-",
+        guard(|| task_tok(task.clone().into_task_data().get_uuid())),
+    );
     sw.scalar("get_status", "-", guard(|| status_tok(&task.get_status())));
     sw.scalar("get_description", "-", guard(|| tab.val_tok(task.get_description())));
     sw.scalar("get_priority", "-", guard(|| tab.val_tok(task.get_priority())));
@@ -1048,7 +1057,7 @@ async fn run_behaviour<S: Storage>(rep: &mut Replica<S>, bh: &Value, lo: i64, ou
                     for e in st["raw"].as_array().unwrap() {
                         let (ck, cv) = (e[0].as_str().unwrap(), e[1].as_str().unwrap());
                         let kt = classify_key(ck);
-                        if entries.iter().any(|x| x.0 == kt) {
+                        if kt == "skip" || entries.iter().any(|x| x.0 == kt) {
                             continue; // one key per class and task
                         }
                         tab.krev.insert(ck.to_string(), kt.clone());
